@@ -61,7 +61,31 @@ def run(tier, seed, replay=None):
         meta["d%d" % i] = (inp, opts, "valid-dag")
         blocks.append(("d%d" % i, GF.case_lines(inp, opts, dict(settings, iterations=3, duration_ms=500))))
     n += n2
+    # no-mix stream: one vehicle, every stop is a pickup or its drop-off of item kind A or B: several tours of alternating
+    # kinds on one route, moves that span tours
+    n3 = 300 if tier == "quick" else 5000
+    off = {k: False for k in ("capacity", "windows", "precedence", "groups", "alternates", "initial", "dur_groups", "multipliers",
+                              "targets", "minstops", "limits", "attrs", "defaults", "dag")}
+    for i in range(n3):
+        inp, opts, feats = GF.gen_full(rng, "small", force=dict(off, mixing=True, mixing_heavy=True))
+        opts["constraints"]["disable"]["mixing_items"] = False
+        meta["m%d" % i] = (inp, opts, "valid-nomix")
+        blocks.append(("m%d" % i, GF.case_lines(inp, opts, dict(settings, iterations=60, duration_ms=1500, starts=i % 2))))
+    n += n3
     res = CR.run_crash(blocks, "c16_" + tier, timeout=3000)
+    # models assembled through the public Go API: vehicles sharing vehicle types, sparse per-type settings
+    n4 = 400 if tier == "quick" else 8000
+    ablocks = []
+    for i in range(n4):
+        line = "api n=%d k=%d nv=%d seq=%d cap=%d objs=%d cons=%d iters=%d runs=%d starts=%d seed=%d" % (
+            rng.randint(1, 12), rng.randint(1, 3), rng.randint(1, 6), rng.randint(0, 3), rng.randint(0, 2), rng.randint(0, 31),
+            rng.randint(0, 31), rng.choice([1, 5, 60]), rng.choice([1, 1, 2, 3]), rng.choice([0, 1, 2]), rng.randint(1, 99))
+        ablocks.append(("a%d" % i, [line]))
+        meta["a%d" % i] = ({"api": line}, {}, "api-model")
+    ares = CR.run_crash(ablocks, "c16api_" + tier, timeout=3000, cmd="apicrash")
+    res.update(ares)
+    blocks += ablocks
+    n += n4
     classes = {}
     kinds = {}
     for cid, r in res.items():
